@@ -141,7 +141,7 @@ def conflict_signal(ctx, crate, crs, tag):
 def decision_errors(ctx, crate, crs, tag):
     R = "decision-errors" + tag
     sites = q.callers_of(crate, DT + "try_add_decision")
-    ctx.floor(R, "try_add_decision call sites", len(sites), 7)
+    ctx.floor(R, "try_add_decision call sites", len(sites), 5)
     for b, i, t in sites:
         fn = q.enclosing_fn(crate, b)
         dl = t["dest"]["l"]
